@@ -20,10 +20,11 @@ import Chrono.Proofs.ParsedZoneL
 import Chrono.Proofs.ParsedTsCompleteL
 import Chrono.Proofs.ParsedZFieldsL
 import Chrono.Proofs.ParsedKindsL
+import Chrono.Proofs.ParsedLeapTsL
 
 namespace Chrono.Props.C14
 open Chrono Chrono.M Chrono.Spec Chrono.Spec.Fields Chrono.Spec.Ts Chrono.Proofs Chrono.Proofs.ParsedRes Chrono.Extracted
-open Chrono.Proofs.ParsedZone Chrono.M.TzL Chrono.Proofs.ParsedZF Chrono.Proofs.ParsedKinds
+open Chrono.Proofs.ParsedZone Chrono.M.TzL Chrono.Proofs.ParsedZF Chrono.Proofs.ParsedKinds Chrono.Proofs.ParsedLeap
 
 attribute [local instance] exceptDecEq
 
@@ -1174,6 +1175,129 @@ example :
       = .ok (.error .impossible) ∧
     Parsed.to_datetime_with_timezone { timestamp := some 0 } 3600
       = .ok (.ok ⟨⟨dateOfYo 1970 1, ⟨0, 0⟩⟩, 3600⟩) := by
+  decide +kernel
+
+/-! ### leap-second readings through the timestamp fall-back (audit gap LOW-MEDIUM-3) -/
+
+/-- completeness of `to_naive_datetime_with_offset` THROUGH THE TIMESTAMP for a LEAP-SECOND reading
+(the case `datetime_complete_timestamp` excludes by `hnl`): for every existing day `(Y, o)`, every
+leap reading `t` (`t.frac ≥ 10⁹` on a second :59 — any minute, as `NaiveTime` allows) and every offset,
+a record
+  * whose second field is 60,
+  * whose timestamp field `g` is the timestamp of the reading at `off` (that of its second :59), or
+    one more (that of the following second, the documented allowance) — in which case the following
+    second must itself be a representable local date-time (`g + off ≤ TS_MAX`; see the example below),
+  * whose other supplied fields — any subset — agree with the reading, year groups determinate, the
+    nanosecond field (if any) being the sub-second part and the sub-second part being zero without it,
+  * and that does not hold a sufficient date together with a sufficient time combination
+resolves to exactly `⟨(Y, o), t⟩`. -/
+theorem datetime_complete_timestamp_leap (p : Parsed) (hp : InType p) (off : Int) (Y : Int) (o : Nat)
+    (t : Time) (hvd : VD Y o) (ht : TValid t) (hleap : 1000000000 ≤ t.frac) (h59 : t.secs % 60 = 59)
+    (hag : DateAgrees p Y o)
+    (hdY : GroupDeterminate p.year p.year_div_100 p.year_mod_100 Y)
+    (hdI : ∀ w, (dateOfYo Y o).iso_week = .ok w →
+      GroupDeterminate p.isoyear p.isoyear_div_100 p.isoyear_mod_100 (IsoWeek.year w))
+    (hta : TimeAgreesSupplied p t) (hnano : p.nanosecond = none → t.frac = 1000000000)
+    (h60 : p.second = some 60) (g : Int) (hts : p.timestamp = some g)
+    (hg : g = timestampIs.instSecsLocal ⟨dateOfYo Y o, t⟩ - off ∨
+      (g = timestampIs.instSecsLocal ⟨dateOfYo Y o, t⟩ - off + 1 ∧ g + off ≤ TS_MAX))
+    (hfb : ¬ (DateSufficient p ∧ TimeSufficient p)) :
+    Parsed.to_naive_datetime_with_offset p off = .ok (.ok ⟨dateOfYo Y o, t⟩) :=
+  dt_complete_ts_leap p hp off Y o t hvd ht hleap h59 hag hdY hdI hta hnano h60 g hts hg hfb
+
+/-- the same for `to_datetime`: the timestamp of a leap-second value `z` (or one more), second 60,
+`z`'s offset as offset field (or none, `z` at UTC), agreeing insufficient other fields ⇒ exactly `z` -/
+theorem to_datetime_complete_timestamp_leap (p : Parsed) (hp : InType p) (z : Zoned) (hz : ZInv z)
+    (Y : Int) (o : Nat) (t : Time) (hvd : VD Y o) (ht : TValid t) (hleap : 1000000000 ≤ t.frac)
+    (h59 : t.secs % 60 = 59)
+    (hl : Zoned.naive_local z = .ok ⟨dateOfYo Y o, t⟩)
+    (hag : DateAgrees p Y o)
+    (hdY : GroupDeterminate p.year p.year_div_100 p.year_mod_100 Y)
+    (hdI : ∀ w, (dateOfYo Y o).iso_week = .ok w →
+      GroupDeterminate p.isoyear p.isoyear_div_100 p.isoyear_mod_100 (IsoWeek.year w))
+    (hta : TimeAgreesSupplied p t) (hnano : p.nanosecond = none → t.frac = 1000000000)
+    (h60 : p.second = some 60) (g : Int) (hts : p.timestamp = some g)
+    (hg : g = instSecs z.utc ∨ (g = instSecs z.utc + 1 ∧ g + z.off ≤ TS_MAX))
+    (hoff : p.offset = some z.off ∨ (p.offset = none ∧ z.off = 0))
+    (hfb : ¬ (DateSufficient p ∧ TimeSufficient p)) :
+    Parsed.to_datetime p = .ok (.ok z) :=
+  to_datetime_complete_ts_leap p hp z hz Y o t hvd ht hleap h59 hl hag hdY hdI hta hnano h60 g hts hg
+    hoff hfb
+
+/-- the same for `to_datetime_with_timezone` in the fixed zone `z.off`; for the `+1` timestamp the
+following second must be representable both as a local date-time and as an instant -/
+theorem to_datetime_with_timezone_complete_timestamp_leap (p : Parsed) (hp : InType p) (z : Zoned)
+    (hz : ZInv z) (Y : Int) (o : Nat) (t : Time) (hvd : VD Y o) (ht : TValid t)
+    (hleap : 1000000000 ≤ t.frac) (h59 : t.secs % 60 = 59)
+    (hl : Zoned.naive_local z = .ok ⟨dateOfYo Y o, t⟩)
+    (hag : DateAgrees p Y o)
+    (hdY : GroupDeterminate p.year p.year_div_100 p.year_mod_100 Y)
+    (hdI : ∀ w, (dateOfYo Y o).iso_week = .ok w →
+      GroupDeterminate p.isoyear p.isoyear_div_100 p.isoyear_mod_100 (IsoWeek.year w))
+    (hta : TimeAgreesSupplied p t) (hnano : p.nanosecond = none → t.frac = 1000000000)
+    (h60 : p.second = some 60) (g : Int) (hts : p.timestamp = some g)
+    (hg : g = instSecs z.utc ∨ (g = instSecs z.utc + 1 ∧ g + z.off ≤ TS_MAX ∧ g ≤ TS_MAX))
+    (hoff : ∀ x, p.offset = some x → x = z.off)
+    (hfb : ¬ (DateSufficient p ∧ TimeSufficient p)) :
+    Parsed.to_datetime_with_timezone p z.off = .ok (.ok z) :=
+  to_datetime_tz_complete_ts_leap p hp z hz Y o t hvd ht hleap h59 hl hag hdY hdI hta hnano h60 g hts
+    hg hoff hfb
+
+/-- non-vacuity, for EVERY leap reading: the record holding the timestamp (either of the two), second
+60 and the sub-second part as nanosecond field meets all hypotheses of
+`datetime_complete_timestamp_leap` -/
+theorem datetime_complete_timestamp_leap_only (off : Int) (hoff : -2147483648 ≤ off ∧ off ≤ 2147483647)
+    (Y : Int) (o : Nat) (t : Time) (hvd : VD Y o) (ht : TValid t) (hleap : 1000000000 ≤ t.frac)
+    (h59 : t.secs % 60 = 59) (g : Int)
+    (hg : g = timestampIs.instSecsLocal ⟨dateOfYo Y o, t⟩ - off ∨
+      (g = timestampIs.instSecsLocal ⟨dateOfYo Y o, t⟩ - off + 1 ∧ g + off ≤ TS_MAX)) :
+    Parsed.to_naive_datetime_with_offset
+      { timestamp := some g, second := some 60, nanosecond := some (t.frac - 1000000000) } off
+      = .ok (.ok ⟨dateOfYo Y o, t⟩) := by
+  obtain ⟨_, hb1, hb2⟩ := timestamp_spec Y o t hvd ht
+  obtain ⟨w, hw⟩ := iso_week_ok Y o hvd
+  obtain ⟨t0, t1, f0, f1⟩ := id ht
+  have hno : ∀ x, (none : Option Int) = some x → False := fun x h => by cases h
+  have n : ∀ lo hi, optIn (none : Option Int) lo hi := fun _ _ x h => (hno x h).elim
+  refine datetime_complete_timestamp_leap _ ?_ off Y o t hvd ht hleap h59 ?_ ?_ ?_ ?_ ?_ rfl g rfl hg ?_
+  · refine ⟨n _ _, n _ _, n _ _, n _ _, n _ _, n _ _, n _ _, n _ _, n _ _, n _ _, n _ _, n _ _, n _ _,
+      n _ _, n _ _, n _ _, fun x h => ?_, fun x h => ?_, fun x h => ?_, n _ _⟩
+    · cases h; omega
+    · cases h; omega
+    · cases h
+      rcases hg with rfl | ⟨rfl, _⟩ <;> omega
+  · exact ⟨fun x h => (hno x h).elim, ⟨fun x h => (hno x h).elim, fun x h => (hno x h).elim⟩,
+      fun x h => (hno x h).elim, fun x h => (hno x h).elim, fun x h => (hno x h).elim,
+      fun x h => (hno x h).elim, fun x h => (by cases h), fun x h => (hno x h).elim,
+      fun x h => (hno x h).elim, ⟨w, hw, fun x h => (hno x h).elim,
+        ⟨fun x h => (hno x h).elim, fun x h => (hno x h).elim⟩, fun x h => (hno x h).elim⟩⟩
+  · exact ⟨fun h => h.2.1 rfl, fun _ _ h => (h rfl).elim⟩
+  · intro w' _; exact ⟨fun h => h.2.1 rfl, fun _ _ h => (h rfl).elim⟩
+  · refine ⟨fun x h => (hno x h).elim, fun x h => (hno x h).elim, fun x h => (hno x h).elim,
+      fun x h => ?_, fun x h => ?_⟩
+    · cases h
+      rw [if_pos rfl]
+      exact ⟨h59, hleap⟩
+    · cases h; omega
+  · intro h; cases h
+  · intro h; exact h.2.1 rfl
+
+/-- kernel-checked instances: 2016-12-31T23:59:60.25 from either timestamp with second 60; at the
+last representable second the `+1` timestamp is beyond the range on this path: OUT_OF_RANGE (the
+FIELD path accepts it, `tz_leap_at_max`) — the hypothesis `g + off ≤ TS_MAX` cannot be dropped -/
+example :
+    Parsed.to_naive_datetime_with_offset
+      { timestamp := some 1483228799, second := some 60, nanosecond := some 250000000 } 0
+      = .ok (.ok ⟨dateOfYo 2016 366, ⟨86399, 1250000000⟩⟩) ∧
+    Parsed.to_naive_datetime_with_offset
+      { timestamp := some 1483228800, second := some 60, nanosecond := some 250000000 } 0
+      = .ok (.ok ⟨dateOfYo 2016 366, ⟨86399, 1250000000⟩⟩) ∧
+    Parsed.to_datetime { timestamp := some 1483225200, second := some 60, offset := some 3600 }
+      = .ok (.ok ⟨⟨dateOfYo 2016 366, ⟨82799, 1000000000⟩⟩, 3600⟩) ∧
+    Parsed.to_naive_datetime_with_offset { timestamp := some 8210266876799, second := some 60 } 0
+      = .ok (.ok ⟨dateOfYo 262142 365, ⟨86399, 1000000000⟩⟩) ∧
+    Parsed.to_naive_datetime_with_offset { timestamp := some 8210266876800, second := some 60 } 0
+      = .ok (.error .outOfRange) := by
   decide +kernel
 
 /-- no resolver panics: for every record of in-type field values, every `i32` offset argument and
